@@ -146,6 +146,44 @@ partial def renderKV : String × Val → String
   | (k, v) => "(" ++ Sexp.quote k ++ " " ++ renderV v ++ ")"
 end
 
+def parseRepr : String → Option ARepr
+  | "Byte" => some .byte | "Int" => some .int | "Float" => some .float | "String" => some .string
+  | "Array" => some .array | "Unknown" => some .unknown
+  | _ => none
+
+/-- the walker prints a record as `(rec (v₀ v₁ …) ((name v) … sorted by name))`: give position `i`
+    an unused name whose value is the same (ties are interchangeable: equal values) -/
+def assignNames (rs : List String) (named : List (String × String)) : List String :=
+  let step := fun (acc : List String × List (String × String)) (r : String) =>
+    match acc.2.find? (fun p => p.2 == r) with
+    | some p => (acc.1 ++ [p.1], acc.2.erase p)
+    | none => (acc.1 ++ ["?"], acc.2)
+  (rs.foldl step ([], named)).1
+
+mutual
+partial def parseG : Sexp → Option GV
+  | .list [.atom "b", n] => n.toNat?.map .byte
+  | .list [.atom "i", n] => n.toInt?.map .int
+  | .list [.atom "f", n] => n.toNat?.map .float
+  | .list [.atom "s", .str s] => some (.str s)
+  | .list [.atom "tag", n] => n.toNat?.map .tag
+  | .list (.atom "data" :: n :: fs) => do
+    let n ← n.toNat?
+    let fs ← fs.mapM parseG
+    pure (.data n fs)
+  | .list [.atom "rec", .list vals, .list named] => do
+    let fs ← vals.mapM parseG
+    let named ← named.mapM (fun p => match p with
+      | .list [.str n, v] => some (n, v.render)
+      | _ => none)
+    pure (.record (assignNames (vals.map Sexp.render) named) fs)
+  | .list (.atom "arr" :: .atom r :: xs) => do
+    let r ← parseRepr r
+    let xs ← xs.mapM parseG
+    pure (.array r xs)
+  | _ => none
+end
+
 def renderOV : Option Val → String
   | some v => renderV v
   | none => "panic"
@@ -164,6 +202,10 @@ def handle : List Sexp → String
   | [.atom "conv", v, t] =>
     match parseV v, parseT t with
     | some v, some t => renderOV (get t (push v))
+    | _, _ => "bad-request"
+  | [.atom "getg", t, g] =>
+    match parseT t, parseG g with
+    | some t, some g => renderOV (get t g)
     | _, _ => "bad-request"
   | [.atom "de", t, v] =>
     match parseT t, parseV v with
